@@ -1008,7 +1008,7 @@ func TestC14(t *testing.T) {
 	}
 	c14Protowire(t, cfg, rec, pool, dl)
 	rec.Flush()
-	total := 2500 / cfg.NShards
+	total := 15000 / cfg.NShards
 	if cfg.Thorough() {
 		total = 400000 / cfg.NShards
 	}
